@@ -76,6 +76,15 @@ def cases(thorough):
                     yield dict(base, block="X", dz=1 / 2, dx=1.0, resolution=4, operation=op, origin=o, direction="z", special=sp)
             for dtv in ("f4", "i8"):
                 yield dict(base, block="X", dz=1 / 2, dx=1.0, resolution=4, operation="sum", origin=o, direction="z", dens_dtype=dtv)
+        # block Z: scale. Several million depth samples (default 256 x 256 image, 77 depth samples; 300 x 300 x 51): a reduction that is split
+        # into blocks of samples must still be the reduction of the whole column
+        if ndim == 3 and tree.get("refined") and (ti in (3, 4) if thorough else ti == 3):
+            for op, dzz, off in ((("mean", 0.3, 0.0), ("nanmean", 0.4, 0.35), ("sum", 0.3, 0.0)) if thorough else (("mean", 0.3, 0.0), ("nanmean", 0.4, 0.35))):
+                oo = list(o)
+                oo[-1] = oo[-1] + off if ndim == 3 else oo[-1]
+                yield dict(base, block="Z", dz=dzz, dx=1.0, resolution=None, operation=op, origin=oo, direction="z")
+            if thorough:
+                yield dict(base, block="Z", dz=0.17, dx=1.0, resolution={"x": 300, "y": 300}, operation="mean", origin=o, direction="z")
         # block S: sequences of thick maps in one process, mixing the default resolution, partial dictionaries and ints
         if ti in (0, 2):
             K1 = dict(base, dz=2 / 256, dx=1.0, resolution=None, operation="sum", origin=o, direction="z")
